@@ -86,6 +86,25 @@ where
             m2[i] = b"altered".to_vec();
             push(out, format!("history-{name}-L{l}-message-{i}-altered"), "verify(altered message)", guard(|| res(sig.verify(kp.public_key(), Some(&m2), Some(HEADER)))), "expect-err");
         }
+        if l == 33 {
+            // long messages: every octet is bound (sizes around 255 / 256 / 1000 octets)
+            for len in [255usize, 256, 300, 1000] {
+                let mut ml = msgs(2);
+                ml[1] = vec![0x5a; len];
+                if let Ok(sg) = Sig::<CS>::sign(Some(&ml), kp.private_key(), kp.public_key(), Some(HEADER)) {
+                    push(out, format!("history-{name}-message-of-{len}-octets-honest"), "sign+verify", guard(|| res(sg.verify(kp.public_key(), Some(&ml), Some(HEADER)))), "expect-ok");
+                    let mut e1 = ml.clone();
+                    e1[1][len - 1] ^= 1;
+                    push(out, format!("history-{name}-message-of-{len}-octets-last-octet-changed"), "verify(altered message)", guard(|| res(sg.verify(kp.public_key(), Some(&e1), Some(HEADER)))), "expect-err");
+                    let mut e2 = ml.clone();
+                    e2[1].truncate(len - 1);
+                    push(out, format!("history-{name}-message-of-{len}-octets-truncated-by-one"), "verify(altered message)", guard(|| res(sg.verify(kp.public_key(), Some(&e2), Some(HEADER)))), "expect-err");
+                    let mut e3 = ml.clone();
+                    e3[1].push(0);
+                    push(out, format!("history-{name}-message-of-{len}-octets-extended-by-one"), "verify(altered message)", guard(|| res(sg.verify(kp.public_key(), Some(&e3), Some(HEADER)))), "expect-err");
+                }
+            }
+        }
         let mut m3 = m.clone();
         m3.swap(l - 1, l - 2);
         push(out, format!("history-{name}-L{l}-last-two-swapped"), "verify(moved messages)", guard(|| res(sig.verify(kp.public_key(), Some(&m3), Some(HEADER)))), "expect-err");
